@@ -1,8 +1,10 @@
 package props
 
 import (
+	"fmt"
 	"go/token"
 	"go/types"
+	"strings"
 
 	"golang.org/x/tools/go/ssa"
 
@@ -460,6 +462,7 @@ func init() {
 		Build: func(c *Ctx) []*an.Oblig {
 			exclusiveC09(c)
 			exclusiveC10(c) // the attach discipline and the delete guard are premises of C09 as well
+			exclusiveWiring(c)
 			out := c.sel(func(o *an.Oblig) bool {
 				if isUndecided(o) || o.Rule == "ANCHOR" {
 					return true
@@ -492,6 +495,7 @@ func init() {
 		Build: func(c *Ctx) []*an.Oblig {
 			exclusiveC10(c)
 			exclusiveC09installOnly(c)
+			exclusiveWiring(c)
 			out := c.sel(func(o *an.Oblig) bool {
 				if isUndecided(o) || o.Rule == "ANCHOR" {
 					return true
@@ -529,5 +533,199 @@ func exclusiveC09installOnly(c *Ctx) {
 	if a.runner.need(installs, "PATH", "e.work[key] = successor") {
 		ok := c.P.Before(a.runner.fn, an.Is(installs[0]), a.work)
 		a.runner.add("PATH", "the item is detached from the map before its work starts", ok, "map update dominates the work call", installs[0])
+	}
+}
+
+// exclusiveWiring: the public entry points hand exactly their own key, work and wait to the core (directly through
+// CallWithOptions' options or by delegating to a sibling entry point), the option constructors set exactly their own
+// field, and CallWithOptions applies every option to the config it passes to call(). A wrapper that drops or swaps
+// the key on one path serialises that work under the wrong key: it overlaps work of its own key and is delayed by
+// work of another.
+func exclusiveWiring(c *Ctx) {
+	P := c.P
+	type ep struct {
+		name    string
+		hasWait bool
+		start   bool
+	}
+	eps := []ep{
+		{"(*Exclusive).Call", false, false}, {"(*Exclusive).CallAfter", true, false}, {"(*Exclusive).CallAsync", false, false},
+		{"(*Exclusive).CallAfterAsync", true, false}, {"(*Exclusive).Start", false, true}, {"(*Exclusive).StartAfter", true, true},
+	}
+	isEP := map[string]ep{}
+	for _, e := range eps {
+		isEP[e.name] = e
+	}
+	const cwo = "(*Exclusive).CallWithOptions"
+	for _, e := range eps {
+		q := c.F(e.name)
+		if !q.ok() {
+			continue
+		}
+		// params: receiver, key, value[, wait]
+		if len(q.fn.Params) < 3 || (e.hasWait && len(q.fn.Params) < 4) {
+			q.undecided("PROV", "entry point wiring", "unexpected signature")
+			continue
+		}
+		key, val := ssa.Value(q.fn.Params[1]), ssa.Value(q.fn.Params[2])
+		var wait ssa.Value
+		if e.hasWait {
+			wait = q.fn.Params[3]
+		}
+		var outs []ssa.Instruction
+		for _, in := range an.AllInstrs(q.fn, func(in ssa.Instruction) bool { return an.CallCommonOf(in) != nil }) {
+			cc := an.CallCommonOf(in)
+			n := P.CalleeName(cc)
+			if _, is := isEP[n]; !is && n != cwo {
+				continue
+			}
+			outs = append(outs, in)
+			okKey, okVal, okWait, okStart := false, false, !e.hasWait, false
+			detail := ""
+			if n == cwo {
+				// the variadic options: values stored into the backing array of the slice argument
+				var opts []*ssa.Call
+				if len(cc.Args) >= 2 {
+					if sl, isS := cc.Args[1].(*ssa.Slice); isS {
+						if al, isA := sl.X.(*ssa.Alloc); isA {
+							for _, r := range *al.Referrers() {
+								ia, isIA := r.(*ssa.IndexAddr)
+								if !isIA {
+									continue
+								}
+								for _, rr := range *ia.Referrers() {
+									if st, isSt := rr.(*ssa.Store); isSt && st.Addr == ssa.Value(ia) {
+										for _, s := range P.Sources(st.Val) {
+											if call, isC := s.(*ssa.Call); isC {
+												opts = append(opts, call)
+											}
+										}
+									}
+								}
+							}
+						}
+					}
+				}
+				startTrue, waitSeen := false, false
+				for _, o := range opts {
+					if len(o.Call.Args) != 1 {
+						continue
+					}
+					a := o.Call.Args[0]
+					switch P.CalleeName(&o.Call) {
+					case "ExclusiveKey":
+						okKey = okKey || srcIs(P, a, key)
+					case "ExclusiveValue", "ExclusiveWork":
+						okVal = okVal || srcIs(P, a, val)
+					case "ExclusiveWait":
+						waitSeen = true
+						if e.hasWait {
+							okWait = okWait || srcIs(P, a, wait)
+						} else if !isZero(a) {
+							okWait = false
+						}
+					case "ExclusiveStart":
+						if b, isB := constBool(a); isB && b {
+							startTrue = true
+						}
+					}
+				}
+				_ = waitSeen
+				okStart = startTrue == e.start
+				detail = "CallWithOptions(" + fmt.Sprint(len(opts)) + " options)"
+			} else {
+				t := isEP[n]
+				okKey = len(cc.Args) > 1 && srcIs(P, cc.Args[1], key)
+				okVal = len(cc.Args) > 2 && srcIs(P, cc.Args[2], val)
+				if t.hasWait && len(cc.Args) > 3 {
+					if e.hasWait {
+						okWait = srcIs(P, cc.Args[3], wait)
+					} else {
+						okWait = isZero(cc.Args[3])
+					}
+				} else if e.hasWait {
+					okWait = false // the wait would be dropped
+				}
+				okStart = t.start == e.start
+				detail = "delegates to " + n
+			}
+			ok := okKey && okVal && okWait && okStart
+			bad := ""
+			if !okKey {
+				bad += " key"
+			}
+			if !okVal {
+				bad += " work"
+			}
+			if !okWait {
+				bad += " wait"
+			}
+			if !okStart {
+				bad += " start-mode"
+			}
+			q.add("PROV", "the entry point hands its own key, work and wait to the core", ok,
+				pickS(ok, detail+" with this call's key, work, wait and start mode", detail+" without this call's"+bad+": the work would run under another key / configuration than the caller asked for"), in)
+		}
+		if q.need(outs, "PROV", "call into the core from "+e.name) {
+			skip := P.PathExists(q.fn, nil, an.IsReturn, an.In(outs), nil)
+			q.add("PATH", "every path of the entry point reaches the core", !skip, pickS(!skip, "no return without CallWithOptions / a sibling entry point", "the entry point can return without submitting the work"), outs[0])
+		}
+	}
+	// option constructors: the returned closure sets exactly its own field from the constructor's argument
+	for _, oc := range [][2]string{{"ExclusiveKey", "exclusiveConfig.key"}, {"ExclusiveWork", "exclusiveConfig.work"}, {"ExclusiveWait", "exclusiveConfig.wait"}, {"ExclusiveStart", "exclusiveConfig.start"}} {
+		q := c.F(oc[0])
+		if !q.ok() {
+			continue
+		}
+		cls := closuresOf(q.fn, func(f *ssa.Function) bool { return true })
+		if len(cls) != 1 {
+			q.undecided("WR", "option "+oc[0]+" sets its field", "expected exactly one closure")
+			continue
+		}
+		var stores []ssa.Instruction
+		for _, in := range an.AllInstrs(cls[0], func(in ssa.Instruction) bool { _, ok := in.(*ssa.Store); return ok }) {
+			if f := an.FieldOfAddr(in.(*ssa.Store).Addr); strings.HasPrefix(f, "exclusiveConfig.") {
+				stores = append(stores, in)
+			}
+		}
+		ok := len(stores) == 1 && an.FieldOfAddr(stores[0].(*ssa.Store).Addr) == oc[1] && srcIs(P, stores[0].(*ssa.Store).Val, q.fn.Params[0])
+		q.add("WR", "option "+oc[0]+" sets exactly its own field from its argument", ok, pickS(ok, "one store: "+oc[1]+" := the argument", "the option writes another field, another value, or more than one field of the config"), stores...)
+	}
+	// CallWithOptions: every option is applied to the config that is passed to call()
+	if q := c.F(cwo); q.ok() {
+		calls := P.CallsTo(q.fn, "(*Exclusive).call")
+		var applies []ssa.Instruction
+		var cfg *ssa.Alloc
+		for _, in := range an.AllInstrs(q.fn, func(in ssa.Instruction) bool {
+			call, ok := in.(*ssa.Call)
+			return ok && call.Call.StaticCallee() == nil && !call.Call.IsInvoke() && len(call.Call.Args) == 1
+		}) {
+			if al, isA := in.(*ssa.Call).Call.Args[0].(*ssa.Alloc); isA {
+				if n, isN := al.Type().Underlying().(*types.Pointer).Elem().(*types.Named); isN && n.Obj().Name() == "exclusiveConfig" {
+					applies = append(applies, in)
+					cfg = al
+				}
+			}
+		}
+		if q.need(calls, "PROV", "call of call()") && q.need(applies, "PROV", "option(&config)") {
+			// the applied callee is an element of the options slice, inside a loop over it
+			ap := applies[0].(*ssa.Call)
+			fromOpts := false
+			for _, s := range P.Sources(ap.Call.Value) {
+				if ld, isL := isLoad(s); isL {
+					if ia, isIA := ld.X.(*ssa.IndexAddr); isIA && ia.X == ssa.Value(q.fn.Params[1]) {
+						fromOpts = true
+					}
+				}
+			}
+			ok := fromOpts && P.InCycle(ap) && P.PathExists(q.fn, ap, an.Is(calls[0]), nil, nil)
+			// ... and call() receives that config
+			passes := false
+			if ld, isL := isLoad(callArg(calls[0], 1)); isL && ld.X == ssa.Value(cfg) {
+				passes = true
+			}
+			q.add("PROV", "every option is applied to the config handed to call()", ok && passes,
+				pickS(ok && passes, "for each options[i]: options[i](&config); call(config)", "CallWithOptions does not apply every given option to the config it passes on"), calls[0])
+		}
 	}
 }
